@@ -9,8 +9,10 @@
       or refused a pinned host -- it has written at least one report;
     * when send_envelope() is reached nothing has been written yet (the envelope phase of
       Model/QrEnvelope.v starts from an empty status stream);
-    * every report written in this phase (and by the shutdown behind the harness' stand-in for
-      send_envelope()) starts with Z. *)
+    * every report written in this phase starts with Z, and there is exactly one: the exits that go
+      through quitmsg() add nothing, whatever the server does in the QUIT exchange;
+    * behind the harness' stand-in for send_envelope() (which writes no report) the clean shutdown
+      writes none either. *)
 From Qv Require Import Common.Bytes.
 Local Open Scope bool_scope.
 
@@ -19,6 +21,6 @@ Definition zword_b (w : bytes) : bool := N.eqb (hd 0%N w) 90.
 Definition conn_spec_ok (code : nat) (mail : option nat) (words : list bytes) (wf : bool) : bool :=
   Nat.eqb code 0 && wf && forallb zword_b words
   && match mail with
-     | Some n => Nat.eqb n 0
-     | None => negb (Nat.eqb (length words) 0)
+     | Some n => Nat.eqb n 0 && Nat.eqb (length words) 0
+     | None => Nat.eqb (length words) 1
      end.
